@@ -11,6 +11,7 @@ import OxyModel.Model.CBreaker
     burst <n> <step_ns>           -> burst <run-length outcomes> <state>   (n × (arrive; clock += step))
     park-warn <n>                 -> ok        (the next n requests arriving while the breaker is not in standby park in its Warn call)
     start <id>                    -> parked    (arrived, undecided; at most one at a time)
+    start <id2> while one parked  -> unparked <pass|fallback> then <pass|fallback> <state>   (two `arrive` steps, the parked one first)
     unpark <id>                   -> pass <state> | fallback <state>      (decided now: the `arrive` step happens here)
     finish <id> <code> …          -> unparked <pass|fallback> <state> done <code> <state>   while a request is parked: the breaker
                                      logs under its lock, so the parked request is decided before the completion can evaluate
@@ -125,7 +126,17 @@ def step (s : St) : List String → St × String
     | some n => ({ s with armed := n }, "ok")
     | none => (s, "bad-op")
   | ["start", id] =>
-    if s.inflight.contains id || s.parked.isSome then (s, "bad-op") else
+    if s.inflight.contains id || s.parked == some id || (s.parked.isSome && s.armed > 0) then (s, "bad-op") else
+    match s.parked with
+    | some pid =>
+      -- a second arrival while one is parked: it waits for the lock the parked one holds; both are decided, in that order
+      let ra := arrive s.cfg s.brk (abs s.now)
+      let rb := arrive s.cfg ra.2 (abs s.now)
+      let str := fun (o : Out) => match o with | .pass => "pass" | .fallback => "fallback"
+      let fl := (if ra.1 == .pass then [pid] else []) ++ (if rb.1 == .pass then [id] else [])
+      ({ s with brk := rb.2, inflight := fl ++ s.inflight, parked := none },
+        "unparked " ++ str ra.1 ++ " then " ++ str rb.1 ++ " " ++ stateStr rb.2)
+    | none =>
     if s.armed > 0 && s.brk.state != .standby then
       ({ s with armed := s.armed - 1, parked := some id }, "parked")
     else
